@@ -42,6 +42,7 @@ structure SpecSt where
   prev : OEv
   table : List ((String × Int × Int) × OV)      -- (name, seed, time) ↦ value read
   lastRead : Option (String × Int × ORes)       -- tag, time, result of the read just before (inspections aside)
+  lastByGen : List (Nat × Int × ORes)           -- per generator: time and result of its latest read/force
   ctxStack : List Snap                          -- clock seen just before each open `with`
   frames : List Frame
   failure : Option String
@@ -86,6 +87,26 @@ def checkRepeat (dynTD : Bool) (st : SpecSt) (i : Nat) (e : OEv) : SpecSt :=
        else fail st' s!"event {i} ({e.tag}): two consecutive reads at time {t} returned different results")
     else st'
   | none => st'
+
+/-- `repeated_read_same`, over intervening statements: a generator read again at the time of its
+latest read/force returns the same value, however the clock got back to that time (the same
+number may arrive as a different object) — unless a pop or an assignment replaced the cache. -/
+def checkSameTime (dynTD : Bool) (st : SpecSt) (i : Nat) (e : OEv) : SpecSt :=
+  if !dynTD then st else
+  if e.tag.startsWith "pop:" || e.tag == "assign" then { st with lastByGen := [] } else
+  if !(isRead e.tag || isForce e.tag) then st else
+  match e.touched, e.res with
+  | some t, .ok v =>
+    let st' := { st with lastByGen := (t.g, e.clock.time, ORes.ok v) :: st.lastByGen.filter (fun r => r.1 != t.g) }
+    if isForce e.tag then st' else
+    match st.lastByGen.find? (fun r => r.1 == t.g) with
+    | some (_, tm, r) =>
+      if tm == e.clock.time then
+        (if r == .ok v then { st' with checked := st'.checked + 1 }
+         else fail st' s!"event {i} ({e.tag}): read at time {tm} differs from the generator's previous value at that same time")
+      else st'
+    | none => st'
+  | _, _ => st
 
 /-- `inspect_never_advances` -/
 def checkInspect (st : SpecSt) (i : Nat) (e : OEv) : SpecSt :=
@@ -154,6 +175,7 @@ def specStep (dynTD : Bool) (acc : SpecSt × Nat) (e : OEv) : SpecSt × Nat :=
   let (st, i) := acc
   let st := checkTd dynTD st i e
   let st := checkRepeat dynTD st i e
+  let st := checkSameTime dynTD st i e
   let st := checkInspect st i e
   let st := checkCtx st i e
   let st := checkPushPop st i e
@@ -163,7 +185,7 @@ def specStep (dynTD : Bool) (acc : SpecSt × Nat) (e : OEv) : SpecSt × Nat :=
 /-- Returns (number of conclusions checked, first violation). -/
 def specTrace (dynTD : Bool) (init : OEv) (evs : List OEv) : Nat × Option String :=
   let st0 : SpecSt := { prev := init, table := [], lastRead := none, ctxStack := [], frames := [],
-                        failure := none, checked := 0 }
+                        failure := none, checked := 0, lastByGen := [] }
   let (st, _) := evs.foldl (specStep dynTD) (st0, 0)
   (st.checked, st.failure)
 
